@@ -8,7 +8,7 @@ def check(ctx):
     cfg = open(tlc.SPEC_DIR + '/cfg/Alloc.cfg').read()
     cfg = cfg.replace('@UNITS@', '{"Z2", "d", "kd", "ka"}' if quick else '{"Z0", "Z2", "Z3", "d", "kd", "bd", "he", "ka", "ta"}')
     cfg = cfg.replace('@JMAX@', '20' if quick else '60')
-    cfg = cfg.replace('@RS@', '{1, 3, 4, 5, 6, 7, 8}' if quick else '1..10')
+    cfg = cfg.replace('@RS@', '{1, 3, 4, 5, 6, 7, 8}' if quick else '{1, 2, 3, 4, 5, 6, 7, 8, 9, 10}')
     r = tlc.run('Alloc', cfg_text=cfg, tag='Alloc', timeout=3000)
     ctx.add_tlc(r, 'Alloc: multi-step allocation machine - NeverStuck, AtMostN, FinalOK (=AllocOK), Terminates',
                 exhaustive=True)
